@@ -1150,13 +1150,10 @@ func funRound(v *decimal.Big) (*decimal.Big, error) {
 }
 
 func funRoundBank(v *decimal.Big) (*decimal.Big, error) {
-	// 将 v 的小数部分提取出来
-	mv := newDecimalBig().Rem(v, decimal.New(1, 0))
-	if mv.Cmp(decimal.New(5, -1)) <= 0 {
-		return funCeil(v)
-	} else {
-		return funFloor(v)
-	}
+	// 四舍六入五成双
+	result := newDecimalBig().Copy(v)
+	result.Context.RoundingMode = decimal.ToNearestEven
+	return result.RoundToInt(), nil
 }
 
 func funRoundCash(v, places *decimal.Big) (*decimal.Big, error) {
